@@ -230,4 +230,11 @@ def run(ctx, rep) -> None:
     from vf import handling as H
     from vf.props import _family
     scs = H.gen_scenarios(ctx.seed, 60 if ctx.quick else 1500, 'stealth')
+    # the object stops matching while the echo of the operator's own PATCH is still under way, the stream breaks, and the re-listing
+    # shows the unmatched object within the consistency window: the finalizer goes in that cycle (nothing else will come)
+    for k_, (t_tog, t_rel) in enumerate(((6, 6), (6, 7), (5, 6))):
+        scs.append({'id': f'stealth-crafted-stale-{k_}', 'handlers': {'a': H.hdl(['create', 'update'], []), 'd': H.hdl(['delete'], [])}, 'order': ['a', 'd'],
+                    'lifecycle': 'asap', 'ctimeout': 5, 'init': {'x': 1, 'on': True},
+                    'env': [(5, 1, 'edit', 2), (5, 1, 'hold'), (t_tog, 1, 'toggle'), (t_rel, 1, 'relist'), (30, 1, 'release')],
+                    'end': 110, 'tail_from': 90, 'profile': 'stealth', 'sync': '', 'drs': False})
     _family.run_traces(rep, scs, 'stealth', nontrivial=lambda f: 'unmatched' in f)
